@@ -16,7 +16,8 @@ CLAIMED = {
                      "conditions of correct parsing; the scanner's transitions on arbitrary documents are not decided. "
                      "Also: the scanner's end-of-input mark (CIF_EOF) is returned by no scan/parse function other than the refill functions (flow-sensitive may-return analysis), and the closing-delimiter run counter of triple-quoted strings is reset by every other character. "
                      "Also: the two bracket arms of scan_unquoted decide from the same variables. "
-                     "Also (round 6): the character-source accounting rule of C08 (every character read is added to the window; a read ending in CR is remembered from the data as read) is reported here too.",
+                     "Also (round 6): the character-source accounting rule of C08 (every character read is added to the window; a read ending in CR is remembered from the data as read) is reported here too. "
+                     "Also shared from C08: no local derived from the scan window is read after a refill without being re-derived.",
                 note=TB + "; the grammar table transcribed in cifsa/rules/c01.py",
                 tech="constant-table reconstruction from AST stores + switch/case-label dispatch analysis on CFGs; may-return value analysis (A1) iterated over the call graph; run-counter reset reachability"),
     "C02": dict(level="other", ref="5 C02",
@@ -27,7 +28,8 @@ CLAIMED = {
                      "Also: with write_char's arguments substituted, the writers' indexes into the analysed text stay within it and their success tests are satisfiable; magic comparisons use the full code for '== 0' and the version-independent prefix for '!= 0'. "
                      "Also (text fields and layout): every logical line of a folded/prefixed text field gets its line terminator, a protected line its empty continuation line; the prefix/refusal decision depends on a leading semicolon and the fold decision on the prefix length; %S precisions are counted in UChar units; no local copy of last_column is used after output moved the column. "
                      "Also: range tests on surrogates cut exactly at the class boundaries; the tracked column advances by what each counted emission wrote. "
-                     "Also (round 6): a text field is written only where allow_text holds, in either CIF version.",
+                     "Also (round 6): a text field is written only where allow_text holds, in either CIF version. "
+                     "Also: the literal characters a format puts on the line of a name fit in what the name validator leaves of the line (or that arm is chosen under a length test that makes room); the analyser's delimiter-evidence rule of C18 is reported here too.",
                 note=TB + "; ICU u_fprintf/u_fputc return conventions (count written / character written)",
                 tech="table agreement + emission/accounting typestate dataflow + who-may-call on the call graph; inter-procedural linear substitution of call arguments; per-iteration must-pass-through with branch facts; dependence closure incl. control dependence; staleness may-dataflow; units of printf precisions; boundary-table check of relational comparisons; format-string accounting"),
     "C03": dict(level="other", ref="5 C03",
@@ -39,7 +41,8 @@ CLAIMED = {
                      "Also (termination/bounds, necessary conditions only): no loop of the parser units is idempotent, and no read-buffer pointer is dereferenced under '<=' against an exclusive end. "
                      "Also: no parser function returns the scanner's private CIF_EOF mark (a defined result code is returned). "
                      "Also: index variables of signed type into fixed-size tables are non-negative by construction or tested. "
-                     "Also (round 6): a table entry claiming a code is tolerated by a case label is verified against the switch (landing block equals that of CIF_OK).",
+                     "Also (round 6): a table entry claiming a code is tolerated by a case label is verified against the switch (landing block equals that of CIF_OK). "
+                     "Also shared from sibling checks as necessary conditions: no stale window pointer after a refill (C08 R1), every production's token switch names all value-starting kinds (C01 R2), an unterminated token at end of input keeps its tail (C12 R6).",
                 note=TB + "; flow-insensitive may-return-code summaries (over-approximate); the cannot-occur table was triaged by reading "
                      "each call site; 5 genuine defects are recorded as known findings",
                 tech="verdict-propagation typestate dataflow + may-return-code summaries over the call graph; natural-loop read/write analysis; may-return value analysis (A1) over the call graph; reaching-definition sign analysis of index variables"),
@@ -52,7 +55,8 @@ CLAIMED = {
                      "Every reference to loop / loop_item / item_value in every query block of the embedded statements is tied to a container (R5). "
                      "Also: every decision 'this category is the scalar category' answers no for a NULL category (three-valued evaluation of the controlling expression, or dominance by a non-NULL test). "
                      "Also: the look-up by code of a table whose creation has a lenient (non-validating) mode normalises its key without validating. "
-                     "Also (round 6): cif_is_valid_name counts code points and accepts names up to exactly the documented limits (shared with C09).",
+                     "Also (round 6): cif_is_valid_name counts code points and accepts names up to exactly the documented limits (shared with C09). "
+                     "Also: the transaction-balance rule of C05 over the modifying API functions.",
                 note=TB + "; SQLite (python3 sqlite3 module) as parser of the embedded SQL; a light tokenizer maps ?-parameters to columns",
                 tech="static analysis of embedded SQL + bind/column site join + must-bind dataflow; three-valued evaluation of branch conditions"),
     "C05": dict(level="proof", ref="5 C05",
@@ -70,7 +74,8 @@ CLAIMED = {
                      "iterator user: transaction contract per exit, stale/misuse guards dominate every modifying statement, "
                      "bookkeeping stores precede success exits, savepoints paired, users close what they open. Necessary conditions "
                      "of the property; once-only delivery of packets depends on SQL row grouping at run time and is not decided. "
-                     "Also: no HASH_ITER body writes the iteration's look-ahead variable.",
+                     "Also: no HASH_ITER body writes the iteration's look-ahead variable. "
+                     "Also shared: every statement reference to loop / loop_item / item_value is tied to a container (C04 R5); names are validated by the normaliser of their own kind (C09 R6).",
                 note=TB + "; SQLite transaction/savepoint semantics",
                 tech="typestate dataflow + dominance / must-pass-through queries on clang CFGs; loop-body write sets for uthash iterations"),
     "C07": dict(level="other", ref="5 C07",
@@ -81,8 +86,9 @@ CLAIMED = {
                      "Also: no storage loop is idempotent (the buffer-growth loop advances); an attribute read back from storage is not overwritten by a later callee's constant store (mod-set summaries). "
                      "Also: serialiser and deserialiser agree on which field each string position holds; the sign of a number (not stored) is recomputed from the text. "
                      "Also: cif_buf_write copies only where the capacity is known to cover position + len (must-fact established by the growth loop's exit test). "
-                     "Also (round 6): every uthash insertion files the value under u_strlen(key) * sizeof(UChar) of the very key stored (shared with C09 / C19).",
-                note=TB + "; SQLite as parser of the embedded SQL",
+                     "Also (round 6): every uthash insertion files the value under u_strlen(key) * sizeof(UChar) of the very key stored (shared with C09 / C19). "
+                     "Also: the text of a character value does not reach sqlite3_bind_text16 unexamined (SQLite's byte-order-mark handling and U+FFFE/U+FFFF replacement alter it: 3 known findings); the storing functions are transaction-balanced (C05's rule).",
+                note=TB + "; SQLite as parser of the embedded SQL; 3 genuine defects (character text altered by SQLite's UTF-16 handling) are recorded as known findings",
                 tech="writer/reader table extraction from macro expansions in the AST + agreement checks; loop-carried-state analysis + last-store mod-set summaries over the call graph; positional field correspondence through locals; must-fact dataflow on relational facts"),
     "C08": dict(level="other", ref="5 C08",
                 text="Necessary conditions of buffer-boundary independence decided on the scanner's code: may-dataflow over every function "
@@ -105,7 +111,8 @@ CLAIMED = {
                      "point accept/reject boundary are not decided. "
                      "Also: data names are (re-)validated by the data-name normaliser and codes by the code normaliser, decided from the tables each function's statements touch. "
                      "Also: range tests on code units cut exactly at the boundaries of the surrogate and non-character classes. "
-                     "Also (round 6): the name length limit is counted in code points, inclusive.",
+                     "Also (round 6): the name length limit is counted in code points, inclusive. "
+                     "Also shared from C07: serialiser and deserialiser of a table entry agree on the order key / original spelling.",
                 note=TB + "; SQLite as parser of the embedded SQL; frozen already-normalised parameter table (DESIGN.md A.3)",
                 tech="who-may-reach / must-pass-through over call graph and bind sites + call-order check; statement-table domain inference per function; boundary-table check of relational comparisons"),
     "C10": dict(level="other", ref="5 C10",
@@ -137,7 +144,8 @@ CLAIMED = {
                      "Also: the over-length test allows for a terminator already counted in the column (must-dataflow), and every hand-written move of next_char has the matching column change. "
                      "Also: the per-character validation macro reports exactly the non-character code units among chosen probes; no BACK_UP is reachable from an end-of-input outcome without a character scanned in between. "
                      "Also: range tests of the scanner cut at class boundaries; a rewind of the scan position to the token start resets the column; copies of the token length are not used after the token was shortened. "
-                     "Also (round 6): the case label of a code the recovery rules tolerate (CIF_NULL_LOOP after accepted duplicate names) lands in the arm of CIF_OK (shared with C03 R2b).",
+                     "Also (round 6): the case label of a code the recovery rules tolerate (CIF_NULL_LOOP after accepted duplicate names) lands in the arm of CIF_OK (shared with C03 R2b). "
+                     "Also: an array filled only for the elements that pass a test is not subscripted by an index run against the count of all elements (the partial-packet recovery decides per column); between the CIF_PARTIAL_PACKET report and the first read of the column variable it is not advanced.",
                 note=TB + "; the recovery table in parser.c's documentation comment is the oracle for actions",
                 tech="table agreement + must/may token-consumption queries on CFGs; must-fact dataflow for column/terminator accounting; conditional constant propagation over a macro expansion; fact-consistent reachability"),
     "C13": dict(level="other", ref="5 C13",
@@ -148,7 +156,8 @@ CLAIMED = {
                      "Also: the analyser statistic behind the text-field refusal (contains_text_delim) is accumulated monotonically. "
                      "Also the text-field body rules shared with C02 (line terminators, protected lines, leading semicolon, prefix length in the fold decision). "
                      "Also: the tracked column advances by what each counted emission wrote (delimiters included). "
-                     "Also (round 6): a refusal by the CIF 1.1 validator inside a loop over names is not overwritten by a later name's acceptance; a text field is written only where one is allowed, in either version.",
+                     "Also (round 6): a refusal by the CIF 1.1 validator inside a loop over names is not overwritten by a later name's acceptance; a text field is written only where one is allowed, in either version. "
+                     "Also: the name-line budget rule of C02.",
                 note=TB + "; write_context_t.version is constant during a write (checked: stored only by cif_write); one named "
                      "exemption: text of unquoted numbers",
                 tech="typestate dataflow (validated-set) + forwarder summaries + guard dominance + table agreement; monotone-update check; per-iteration must-pass-through with branch facts"),
@@ -159,7 +168,8 @@ CLAIMED = {
                      "handlers continuing decides start/children/end order (frames before loops); handle arrays and elements are "
                      "released on every path. That the SQL enumerations yield each element once is not decided. "
                      "Also: a child's SKIP_CURRENT is followed by the same callback sites as its CONTINUE. "
-                     "Also: with any subset of handlers absent cif_walk returns no directive.",
+                     "Also: with any subset of handlers absent cif_walk returns no directive. "
+                     "Also shared from C06: the packet iterator opened by walk_loop is closed or aborted exactly once on every path.",
                 note=TB + "; a child walk is assumed to return any answer class (each helper is checked under that assumption); absent "
                      "handlers are outside the property",
                 tech="finite-domain abstract interpretation (exhaustive) + must-pass-through release checks; answer-indexed reachability sets"),
@@ -183,10 +193,11 @@ CLAIMED = {
                      "array *elements*, SQLite/ICU internals) is not decided. "
                      "Also: key/key_orig aliasing discipline at every free; allocation extent vs constant-offset index; realloc growth increment >= 1 (interval evaluation); exclusive-end guards; no pointer field freed while the kind that owns it stays set; a stored `capacity` equals the element count of the block allocated for the same object. "
                      "Also: all setlocale calls of the save/switch/restore protocol use one category; every allocation that can be the last before a capacity store agrees with it; no HASH_ITER body writes the look-ahead variable. "
-                     "Also (round 6): signed index variables into fixed-size tables have a lower bound (shared with C03 R6).",
+                     "Also (round 6): signed index variables into fixed-size tables have a lower bound (shared with C03 R6). "
+                     "Also: the compacted-array rule of C12 (elements past the ones written are uninitialised).",
                 note=TB + "; frozen allocator table (own.ALLOC_OUT, 44 entries), 4 named exemptions (DESERIALIZE macro family, parse_table's "
-                     "dead allocating arm); linked-list / hash / array elements are outside the alias model; 3 genuine defects are "
-                     "recorded as known findings",
+                     "dead allocating arm); linked-list / hash / array elements are outside the alias model; the defects once "
+                     "recorded as known findings for this property have all been repaired",
                 tech="ownership typestate dataflow + idiom lints over the AST + path-sensitive typestate for setlocale; linear-form and interval evaluation of size/index expressions"),
     "C17": dict(level="other", ref="5 C17",
                 text="Structural necessary conditions of graceful failure under memory exhaustion over ~100 allocation sites: every "
@@ -195,7 +206,8 @@ CLAIMED = {
                      "ownership typestate restricted to paths through a failed allocation (clean-up ladders); no exit leaves a "
                      "transaction open. SQLite's/ICU's own OOM behaviour and 'the same call succeeds when repeated' are not decided. "
                      "Also: after v->kind = K no failure path frees K's fields and returns with the kind still set. "
-                     "Further structural rules: a fresh handle reaches its release function only with every field that function reads assigned (R9); failure handlers reached from a uthash insertion that ran out of memory do not walk the table (R10, six known findings: uthash 1.9.9 cannot be unwound); `*out` is re-assigned after its referent was released (R11); a callee's CIF_MEMORY_ERROR is never re-labelled (R8); no `p = realloc(p, n)` (R7); the DESERIALIZE family releases fields before the shell (R6); `*_clean` helpers leave the counters of a released block at 0 (R13).",
+                     "Further structural rules: a fresh handle reaches its release function only with every field that function reads assigned (R9); failure handlers reached from a uthash insertion that ran out of memory do not walk the table (R10, six known findings: uthash 1.9.9 cannot be unwound); `*out` is re-assigned after its referent was released (R11); a callee's CIF_MEMORY_ERROR is never re-labelled (R8); no `p = realloc(p, n)` (R7); the DESERIALIZE family releases fields before the shell (R6); `*_clean` helpers leave the counters of a released block at 0 (R13). "
+                     "Also shared from C16: every allocation that can be the last before a capacity store agrees with it.",
                 note=TB + "; may-return-code summaries decide which callees can report memory failure",
                 tech="must-fact dataflow per allocation site + dropped-failure typestate + ownership typestate on OOM paths; kind/field release ordering on CFGs"),
     "C18": dict(level="other", ref="5 C18",
@@ -205,7 +217,8 @@ CLAIMED = {
                      "the writer's case labels. Read-back of each recommended form is not decided. "
                      "Also: guards on the way to recommending delimiter D test evidence about D only; whole-string statistics are accumulated monotonically; the parser's closing-delimiter counter counts contiguous characters (reset by every other character), as the analyser's u_strstr test assumes. "
                      "Also: the store that marks a character value unquoted is dominated by a non-zero test of the text's first character. "
-                     "Also (round 6): the histogram index of cif_analyze_string, evaluated for every UTF-16 code unit, stays inside the array and maps onto a slot the cascade reads only the code unit of that number.",
+                     "Also (round 6): the histogram index of cif_analyze_string, evaluated for every UTF-16 code unit, stays inside the array and maps onto a slot the cascade reads only the code unit of that number. "
+                     "Also: every sum of the CR and LF histogram slots subtracts the counter of CR LF pairs; the scanner class tables the analyser's sets are compared with equal the lexical grammar (C01 R1).",
                 note=TB,
                 tech="constant/operand extraction from ASTs + table agreement; edge-dominance evidence check; exhaustive constant evaluation of an index expression over the 65535 UTF-16 code units"),
     "C19": dict(level="other", ref="5 C19",
